@@ -643,11 +643,13 @@ void myth_verif_spin(int site) {
   mvsim_enter(&r);
 }
 
+static void ledger_mark_finished(const void *th);
 void myth_verif_probe(int site, const void *p) {
   if (!g_active) return;
   ALIGN_CHECK(site);
   if (site >= 0 && site < 160) g_st.probe[site]++;
   if (site >= MYTH_VP_POP_SLOW) { sig_mix(0x5000 + (uint64_t)site); ring_add(mvsim_cur ? mvsim_cur->id : -1, 0, site, p); }
+  if (site == MYTH_VP_FINISH_WAITER || site == MYTH_VP_FINISH_NEXT || site == MYTH_VP_FINISH_SCHED) ledger_mark_finished(p);
   if (g_probe_cb) g_probe_cb(site, p, g_st.steps);
 }
 
@@ -780,7 +782,7 @@ unsigned long long (*myth_verif_dr_clock)(void);
 /* ledger                                                              */
 /* ------------------------------------------------------------------ */
 enum { L_FREE = 1, L_ALLOC = 2 };
-typedef struct { uintptr_t p; uint32_t gen; uint8_t kind, state; int16_t rank; size_t size; int custom; } lent;
+typedef struct { uintptr_t p; uint32_t gen; uint8_t kind, state; int16_t rank; size_t size; int custom; int fin; } lent;
 #define LCAP (1u << 16)
 static lent *g_led;
 static uint32_t g_led_gen;
@@ -812,6 +814,11 @@ static lent *led_find(uintptr_t p, int create) {
   mvsim_violation("INFRA", "ledger table full");
 }
 void mvsim_ledger_get(mvsim_ledger_stats *s) { *s = g_ls; }
+static void ledger_mark_finished(const void *th) {
+  if (!g_led) return;
+  lent *e = led_find((uintptr_t)th, 0);
+  if (e && e->kind == MYTH_VK_DESC && e->state == L_ALLOC) e->fin = 1;
+}
 /* per size class: were more fresh blocks mapped than were ever live at once (+slack)?  returns the class or -1 */
 int mvsim_ledger_fresh_excess(int slack, unsigned long long *fresh, unsigned long long *peak) {
   for (int k = 0; k < 64; k++)
@@ -858,7 +865,7 @@ void myth_verif_alloc(int kind, void *p, size_t size, int rank) {
   int fresh = (e->state == 0);
   if (!fresh && e->rank != rank)
     mvsim_violation("LEDGER", "block released to worker %d popped from the list of worker %d", e->rank, rank);
-  e->kind = (uint8_t)kind; e->state = L_ALLOC; e->rank = (int16_t)rank; e->size = size;
+  e->kind = (uint8_t)kind; e->state = L_ALLOC; e->rank = (int16_t)rank; e->size = size; e->fin = 0;
   if (kind == MYTH_VK_DESC) {
     if (fresh) g_ls.desc_fresh++; else g_ls.desc_reused++;
     if (++g_ls.live_desc > g_ls.peak_live_desc) g_ls.peak_live_desc = g_ls.live_desc;
@@ -899,11 +906,13 @@ void myth_verif_free(int kind, void *p, size_t size, int rank, void *thread) {
     g_ls.live_stack--; g_ls.stack_freed++;
     g_cls_live[stack_class(e->custom, e->size)]--;
   } else {
-    int st = mvsim_th_status(thread);
     void *stk = mvsim_th_stack(thread);
-    /* a record may be released only when its thread is finished (main thread: stack==NULL, at fini) */
-    if (stk != 0 && st < 2 /* MYTH_STATUS_FREE_READY */ && !mvsim_th_detached(thread))
-      mvsim_violation("LEDGER", "record released while its thread has not finished (status %d)", st);
+    /* a record may be released only when its thread has finished, i.e. after the thread reached the
+       library's termination path (FINISH_* probe with this record; it is passed by return, myth_exit
+       and cancellation alike).  Exception: the main thread's record (stack==NULL), released at fini.
+       Deliberately not judged by the record's status/detached fields: those are representation. */
+    if (stk != 0 && !e->fin)
+      mvsim_violation("LEDGER", "record released while its thread has not finished (no termination event seen for it)");
     if (g_cfg.poison && stk != 0) {
       *mvsim_th_result_ptr(thread) = (void *)(uintptr_t)0xDEADBEEFDEAD0000ULL;
       g_st.poisoned_results++;
